@@ -808,7 +808,7 @@ theorem decodeB_len (d : Raw) (buf : List Nat) : (d.decodeB buf).2.1.length ≤ 
   · simp
   · split; simp only [List.length_drop]; omega
 
-theorem decodeEofB_len (d : Raw) (buf : List Nat) : (d.decodeEofB buf).1.length ≤ buf.length := by
+theorem decodeEofB_len (d : Raw) (buf : List Nat) : (d.decodeEofB buf).2.1.length ≤ buf.length := by
   unfold Raw.decodeEofB
   split
   · simp
@@ -836,8 +836,7 @@ theorem consumeBounded_spec (inner : Raw) (remaining : Nat) (src : List Nat) :
     · simp only [List.length_append, List.length_drop]; omega
   by_cases he : remaining ≤ (src.take (min remaining src.length)).length
   · simp only [he, ↓reduceIte]
-    exact hr ({}, (inner.decodeEofB (src.take (min remaining src.length))).1, (inner.decodeEofB (src.take (min remaining src.length))).2)
-      (decodeEofB_len inner _)
+    exact hr _ (decodeEofB_len inner _)
   · simp only [he, ↓reduceIte]
     exact hr _ (decodeB_len inner _)
 
